@@ -84,22 +84,23 @@ Definition table : list (string * (sx -> sx)) := [
                       (un_bool (nth_sx 3 a))));
   ("scope.relname_path", fun a => sx_pres (relname_path (un_strs (nth_sx 0 a)) (un_str (nth_sx 1 a))));
   ("userargs.toggle_prefix", fun a => sx_opt sx_str (toggle_prefix (un_str (nth_sx 0 a)) (un_str (nth_sx 1 a))));
-  (* [usage; declarations] -> parser table or the error of the first failing declaration *)
+  (* fixed = the variant of add_user_argument (true: repaired, a nameless option string is a ValueError).
+     [fixed; usage; declarations] -> parser table or the error of the first failing declaration *)
   ("userargs.declare", fun a =>
-      match declare_all (un_usage (nth_sx 0 a)) (map un_decl (un_list (nth_sx 1 a))) empty_parser with
+      match declare_from (un_bool (nth_sx 0 a)) 0 (un_usage (nth_sx 1 a)) (map un_decl (un_list (nth_sx 2 a))) empty_parser with
       | inl p => L [A 0; sx_parser p]
       | inr (i, e) => L [A 1; sx_nat i; sx_aerr e]
       end);
-  (* [usage; declarations; argv] *)
+  (* [fixed; usage; declarations; argv] *)
   ("userargs.parse", fun a =>
-      match declare_all (un_usage (nth_sx 0 a)) (map un_decl (un_list (nth_sx 1 a))) empty_parser with
-      | inl p => L [A 0; sx_pr (parse p (un_strs (nth_sx 2 a)))]
+      match declare_from (un_bool (nth_sx 0 a)) 0 (un_usage (nth_sx 1 a)) (map un_decl (un_list (nth_sx 2 a))) empty_parser with
+      | inl p => L [A 0; sx_pr (parse p (un_strs (nth_sx 3 a)))]
       | inr (i, e) => L [A 1; sx_nat i; sx_aerr e]
       end);
-  (* [usage; declarations; mask; argv] *)
+  (* [fixed; usage; declarations; mask; argv] *)
   ("userargs.respell", fun a =>
-      match declare_all (un_usage (nth_sx 0 a)) (map un_decl (un_list (nth_sx 1 a))) empty_parser with
-      | inl p => L [A 0; sx_list sx_str (respell p (map un_bool (un_list (nth_sx 2 a))) (un_strs (nth_sx 3 a)))]
+      match declare_from (un_bool (nth_sx 0 a)) 0 (un_usage (nth_sx 1 a)) (map un_decl (un_list (nth_sx 2 a))) empty_parser with
+      | inl p => L [A 0; sx_list sx_str (respell p (map un_bool (un_list (nth_sx 3 a))) (un_strs (nth_sx 4 a)))]
       | inr (i, e) => L [A 1; sx_nat i; sx_aerr e]
       end)
 ]%string.
